@@ -107,7 +107,7 @@ def body_c12(tier, seed, rep, only_prop=False, scale=1):
                 rep.prop_fail.append(("C12 reported domain/range/clamp after the history differ from the independent-objects model: " + ans, payload))
 
 
-def run_tick_history(ops, m):
+def run_tick_history(ops, m, later=()):
     """LinearScale driven through ops; returns (reported domain, ticks, texts) asked at the end with count m"""
     from labella.scale import LinearScale
     sc = LinearScale()
@@ -127,6 +127,8 @@ def run_tick_history(ops, m):
     d = sc.domain()
     tk = list(sc.ticks(m)) if m is not None else list(sc.ticks())
     fmt = sc.tickFormat(m) if m is not None else sc.tickFormat()
+    for m2 in later:        # other formatters are requested from the same scale before the first one is used
+        sc.tickFormat(m2)
     return d, tk, [fmt(t) for t in tk]
 
 
@@ -138,10 +140,11 @@ def gen_history(rng):
         c = rng.random()
         if c < 0.25:
             a, b = gen_lin_domain(rng)
-            ops.append(("domain", i, a, b))
+            ops.append((rng.choice(["domain", "domain", "domain!"]), i, a, b))
         elif c < 0.4:
             r0 = rng.choice([0.0, -5.0, 100.0, rng.uniform(-1000, 1000)])
-            ops.append(("range", i, r0, r0 + rng.choice([-1, 1]) * rng.choice([1.0, 100.0, 360.0, rng.uniform(0.5, 5000)])))
+            # "range!" / "domain!": the caller changes the list object it passed before in place and passes it again
+            ops.append((rng.choice(["range", "range", "range!"]), i, r0, r0 + rng.choice([-1, 1]) * rng.choice([1.0, 100.0, 360.0, rng.uniform(0.5, 5000)])))
         elif c < 0.5:
             ops.append(("clamp", i, rng.random() < 0.5))
         elif c < 0.75:
@@ -156,12 +159,23 @@ def run_history(ops):
     from labella.scale import LinearScale
     objs = [LinearScale()]
     enc = []
+    passed = {}      # (object, "domain"/"range") -> the list object the caller passed last
+
+    def arg(i, what, a, b, reuse):
+        lst = passed.get((i, what)) if reuse else None
+        if lst is None:
+            lst = [a, b]
+        else:
+            lst[0], lst[1] = a, b       # in-place change of the caller's own list, then passed again
+        passed[(i, what)] = lst
+        return lst
+
     for op in ops:
         s = objs[op[1]]
-        if op[0] == "domain":
-            s.domain([op[2], op[3]]); enc.append("domain:%d:%s:%s" % (op[1], fr(op[2]), fr(op[3])))
-        elif op[0] == "range":
-            s.range([op[2], op[3]]); enc.append("range:%d:%s:%s" % (op[1], fr(op[2]), fr(op[3])))
+        if op[0] in ("domain", "domain!"):
+            s.domain(arg(op[1], "domain", op[2], op[3], op[0].endswith("!"))); enc.append("domain:%d:%s:%s" % (op[1], fr(op[2]), fr(op[3])))
+        elif op[0] in ("range", "range!"):
+            s.range(arg(op[1], "range", op[2], op[3], op[0].endswith("!"))); enc.append("range:%d:%s:%s" % (op[1], fr(op[2]), fr(op[3])))
         elif op[0] == "clamp":
             s.clamp(op[2]); enc.append("clamp:%d:%s" % (op[1], fr(op[2])))
         elif op[0] == "nice":
@@ -218,10 +232,11 @@ def body_c13(tier, seed, rep, only_prop=False, scale=1):
         if rng.random() < 0.7:      # ask with a count that was used before, when there is one
             used = [o[1] for o in ops if o[0] in ("ticks", "tickFormat")]
             m = rng.choice(used) if used else m
-        meta = {"kind": "lticks-history", "ops": ops, "m": m}
+        later = [rng.choice([1, 2, 5, 20, 50, 100]) for _ in range(rng.choice([0, 0, 1, 2]))]
+        meta = {"kind": "lticks-history", "ops": ops, "m": m, "later": later}
         try:
           with time_limit(10):
-            d, tk, texts = run_tick_history(ops, m)
+            d, tk, texts = run_tick_history(ops, m, later)
         except Exception as e:
             rep.prop_fail.append(("ticks/tickFormat raised %s after a history: %s" % (type(e).__name__, e), {"case": meta})); continue
         if d[0] == d[1]:
@@ -346,7 +361,7 @@ def replay_case(pid, replay):
         fmt = s.tickFormat(m["m"]) if m["m"] is not None else s.tickFormat()
         line = "lticks|%s|%s|%s|%s|%s" % (fr(m["a"]), fr(m["b"]), fr(10 if m["m"] is None else m["m"]), ",".join(fr(t) for t in tk), ";".join(fmt(t) for t in tk))
     elif k == "lticks-history":
-        d, tk, texts = run_tick_history([tuple(o) for o in m["ops"]], m["m"])
+        d, tk, texts = run_tick_history([tuple(o) for o in m["ops"]], m["m"], m.get("later", ()))
         line = "lticks|%s|%s|%s|%s|%s" % (fr(d[0]), fr(d[1]), fr(10 if m["m"] is None else m["m"]), ",".join(fr(t) for t in tk), ";".join(texts))
     elif k == "lnice":
         s = LinearScale().domain([m["a"], m["b"]])
